@@ -154,6 +154,10 @@ func genExtras(r *rng, tag bool) []hdr {
 	if r.coin(1, 6) {
 		hs = append(hs, hdr{[]byte("x-" + string(randHeaderValue(r)[:1])), randHeaderValue(r)})
 	}
+	if r.coin(1, 80) {
+		// one header line longer than 64 KiB (a huge signature, say): line readers with a fixed token limit stop here
+		hs = append(hs, hdr{[]byte("x-long"), bytes.Repeat([]byte("0123456789abcdef"), 4200+r.n(800))})
+	}
 	if r.coin(1, 4) {
 		r.shuffle(len(hs), func(i, j int) { hs[i], hs[j] = hs[j], hs[i] })
 	}
